@@ -1,5 +1,19 @@
 from vcommon import Suite
-from C03 import rewrite_counter_imports
+
+
+def rewrite_counter_imports(dst):
+    """In the scratch copy only: route sync/atomic and sync of internal/counter
+    through the yielding shims (import lines only; no other line changes).
+    Same rewrite as checks/C03.py (kept here so that C04 does not depend on it)."""
+    d = dst / "internal" / "counter"
+    for p in d.glob("*.go"):
+        if p.name.endswith("_test.go"):
+            continue
+        t = p.read_text()
+        t2 = t.replace('\t"sync/atomic"\n', '\tatomic "golang.org/x/telemetry/internal/verifh/shim/vatomic"\n')
+        t2 = t2.replace('\t"sync"\n', '\tsync "golang.org/x/telemetry/internal/verifh/shim/vsync"\n')
+        if t2 != t:
+            p.write_text(t2)
 
 
 SPEC = {
@@ -20,8 +34,9 @@ SPEC = {
                    "after the file grew (stale mappings); random schedules biased to switch at CAS points, a solo "
                    "prefix, kills of any subset at any step; plus every schedule with at most 3 preemptions of two "
                    "tiny same-name / same-bucket / different-bucket programs and kills at every step (quick: a "
-                   "deterministic sample of a quarter of n, thorough: all 3990 plans); one designated replay of known "
-                   "finding #4; two damaged-start scenarios (cyclic chain, small damaged limit; oracle-only). After "
+                   "deterministic sample of a quarter of n, thorough: all 3990 plans); two designated replays of the "
+                   "known finding (witness4: duplicate walk beyond a stale mapping; witness-tries: ten remaps do "
+                   "not catch up, driven by a scheduling callback); two damaged-start scenarios (cyclic chain, small damaged limit; oracle-only). After "
                    "EVERY step the real file is read back (os.ReadFile) and decoded by the harness's own decoder "
                    "(bucket walk + raw scan of the record area) and compared with the model stepped on the same "
                    "schedule: operation kind and file offset of the pending atomic operation, size, limit, every "
@@ -57,7 +72,8 @@ SPEC = {
                   "most 20 + 2*chain length; a process running alone from any reachable state finishes all its "
                   "calls), C04_oracle_accepts_reachable (the executable oracles run on the real bytes hold of every "
                   "reachable model file). REFUTED, with computed model witnesses replayed on the real code: "
-                  "C04_survivor_failed_refuted (known finding survivor-errcorrupt) and C04_empty_name_refuted (known "
+                  "C04_survivor_failed_refuted and C04_survivor_failed_refuted_tries (known finding "
+                  "survivor-errcorrupt, both routes) and C04_empty_name_refuted (known "
                   "finding empty-name). The model is tied to the code by lock-step differential execution after every "
                   "atomic operation (see the suite rule).",
     "level_note": "Proved about the model, sampled for the code. Trusted: Coq kernel+VM, extraction (ExtrOcamlBasic), "
